@@ -108,8 +108,8 @@ func c10R1b(p *core.Prog, r *core.Report) {
 	r.Rule(rule, "LockDB.status is written only with the shard mutexes held (so the role test under a shard mutex is atomic with a role change)", 1)
 	statusKey := fk("server.LockDB", "status")
 	exempt := map[string]string{
-		"server.NewLockDB":        "constructor: database not published yet",
-		"server.(*LockDB).Close":  "shutdown: STATE_CLOSE is terminal, sweepers and requests stop on it",
+		"server.NewLockDB":       "constructor: database not published yet",
+		"server.(*LockDB).Close": "shutdown: STATE_CLOSE is terminal, sweepers and requests stop on it",
 	}
 	type obs struct {
 		pos    string
